@@ -197,6 +197,7 @@ structure State where
   fdFed : Bool := shared                -- the script is read from a descriptor (`FdReader2` + `Echo`)
   aborted : Bool := false               -- a nested read-eval loop (`eval`, `.`) hit a syntax error
   nonblock : Bool := false              -- O_NONBLOCK of the open file description of standard input
+  monitor : Bool := false               -- the `monitor` option (`set -m`)
   inClosed : Bool := false              -- descriptor 0 has been closed (`closein`): every later read of it fails
   errRep : Bool := false                -- a nested read-eval loop reported a syntax error (also inside a subshell)
   deriving Repr
@@ -492,6 +493,8 @@ def execSet (s : State) (args : List String) : State :=
   match args with
   | ["-v"] => setOption s "verbose" true
   | ["+v"] => setOption s "verbose" false
+  | ["-m"] => { s with monitor := true, status := 0 }
+  | ["+m"] => { s with monitor := false, status := 0 }
   | ["-o", o] => setOption s o true
   | ["+o", o] => setOption s o false
   | _ => { s with status := 2 }
@@ -644,6 +647,17 @@ def redirErrorExits (s : State) (c : Cmd) : Bool :=
   | .simple ws _ => ((expandWords s.vars s.status ws).head?.map isSpecial).getD false
   | _ => false
 
+/-- the command runs inside a subshell (`env.stack.contains(&Frame::Subshell)`): the end of a subshell
+    is pending in the continuation -/
+def inSubshell : List K → Bool
+  | [] => false
+  | .restore _ :: _ => true
+  | _ :: k => inSubshell k
+
+/-- `Env::controls_jobs`: `Monitor` is on and the shell is not in a subshell — only then does
+    `Subshell::start` grant the job control `execute_async` asks for (`job_control` is `Some`) -/
+def controlsJobs (k : List K) (s : State) : Bool := s.monitor && !inSubshell k
+
 /-- one step of command execution; `none` when the continuation is empty -/
 def step (k : List K) (s : State) : Option (List K × State) :=
   match k with
@@ -682,6 +696,16 @@ def step (k : List K) (s : State) : Option (List K × State) :=
                               status := 2, aborted := s.aborted || (unwind k).isNone })
     else some (k, { undoIn (performIn rs [] s).1 (performIn rs [] s).2.1 with status := 2 })
   | .undo saved :: k => some (k, undoIn saved s)
+  | .cmd (.async c) :: k =>
+    -- `execute_async` / `async_body`: the and-or list runs in a subshell (what it assigns is lost);
+    -- `if job_control.is_none() { nullify_stdin }`: unless job control is in effect for it, its standard
+    -- input is /dev/null — it cannot take anything of what follows on the shell's input; the shell
+    -- goes on with `$?` = 0.  (The child is run to its end here: the scripts only start asynchronous
+    -- commands that write nothing.)
+    let sv : Saved := { vars := s.vars, aliases := s.aliases, verbose := s.verbose, portable := s.portable }
+    if controlsJobs k s then some (.cmd c :: .restore sv :: .cmd (.simple [] none) :: k, s)
+    else some (.cmd c :: .undo [stdinDesc s] :: .restore sv :: .cmd (.simple [] none) :: k,
+               setDesc s { shared := false, data := [], pos := 0 })
   | .negK :: k => some (k, { s with status := if s.status = 0 then 1 else 0 })
 
 /-- run a continuation to its end (`fuel` steps at most; `false` when the fuel ran out) -/
